@@ -38,8 +38,9 @@ type C19Case struct {
 }
 
 // includes the two code points outside ASCII whose lower case IS ASCII (U+212A KELVIN SIGN -> k, U+0130 -> i)
-var headerPool = []string{"Name", "city", "COL 2", "x-y", "Ünï", "a1", "é", "k_k", "Zip Code", "q", "日本", "Value$", "tag", "\u212a", "\u0130d", "\u212aelvin", "ſ", "ǅ"}
-var fieldPool = []string{"", "a", "b", "x y", "comma,inside", "quote\"inside", "\"", "line\nbreak", "ü日本", " lead", "trail ", "tab\there", "'single'", "1", "0", "long-" + strings.Repeat("z", 40), "\xff\xfebin", "cr\rinside", "a,b\"c\nd"}
+var headerPool = []string{"Name", "city", "COL 2", "x-y", "Ünï", "a1", "é", "k_k", "Zip Code", "q", "日本", "Value$", "tag", "\u212a", "\u0130d", "\u212aelvin", "ſ", "ǅ",
+	"a;b", "x\ty", "p|q", "m:n", "k#1", "semi;"}
+var fieldPool = []string{"semi;colon", "pipe|d", "#hash", "", "a", "b", "x y", "comma,inside", "quote\"inside", "\"", "line\nbreak", "ü日本", " lead", "trail ", "tab\there", "'single'", "1", "0", "long-" + strings.Repeat("z", 40), "\xff\xfebin", "cr\rinside", "a,b\"c\nd"}
 
 // normHeader is the statement's normalisation: lower-cased, every character outside a-z -> '_'.
 func normHeader(h string) string {
